@@ -42,6 +42,9 @@ func count(o *Outcome, which string) {
 	if o.Padded {
 		s.Class("public-key-with-trailing-bytes")
 	}
+	if o.WriteFaults {
+		s.Class("history-with-a-store-write-failure-window")
+	}
 	s.ClassN("requests", o.Requests)
 	s.ClassN("released-signatures", o.Released)
 	s.ClassN("conflicting-attestation-requests", o.ConflictsAtt)
@@ -86,10 +89,10 @@ func runProp(t *testing.T, which, test string, opts GenOpts) {
 
 // TestC01 decides C01.
 func TestC01(t *testing.T) {
-	runProp(t, "C01", "TestC01", GenOpts{AllowHigh: true, AttestW: 55, BatchW: 25, ProposeW: 8, RestartW: 12, MinSteps: 1, MaxSteps: 40})
+	runProp(t, "C01", "TestC01", GenOpts{AllowHigh: true, AttestW: 55, BatchW: 25, ProposeW: 8, RestartW: 12, MinSteps: 1, MaxSteps: 40, FaultP: 30})
 }
 
 // TestC02 decides C02.
 func TestC02(t *testing.T) {
-	runProp(t, "C02", "TestC02", GenOpts{AllowHigh: true, AttestW: 8, BatchW: 4, ProposeW: 75, RestartW: 13, MinSteps: 1, MaxSteps: 40})
+	runProp(t, "C02", "TestC02", GenOpts{AllowHigh: true, AttestW: 8, BatchW: 4, ProposeW: 75, RestartW: 13, MinSteps: 1, MaxSteps: 40, FaultP: 30})
 }
